@@ -167,6 +167,20 @@ def first_diff(a, b):
     return "length %d vs %d lines" % (len(la), len(lb))
 
 
+_IDX = []
+
+
+def index_var_pattern():
+    """regex of the identifiers the Fortran generator makes from ArrayType's default index variable names i<N> (the
+    prefix is whatever the name manager puts in front of generator-made names)"""
+    if not _IDX:
+        from dagrt.codegen.fortran import FortranNameManager
+        made = FortranNameManager().make_unique_fortran_name("i0")
+        prefix = made[:-2] if made.endswith("i0") else "drtf_"
+        _IDX.append(re.compile(re.escape(prefix) + r"i\d+(_\d+)?"))
+    return _IDX[0]
+
+
 def normalisation(a, b):
     """weakest normalisation from a fixed ladder under which the two texts become equal"""
     def renum(t):
@@ -175,7 +189,7 @@ def normalisation(a, b):
         def sub(mo):
             m.setdefault(mo.group(0), "drtf_i#%d" % len(m))
             return m[mo.group(0)]
-        return re.sub(r"drtf_i\d+(_\d+)?", sub, t)
+        return index_var_pattern().sub(sub, t)
 
     def sort_runs(t, pat):
         out, run = [], []
@@ -205,7 +219,7 @@ def canon_index_vars(t):
     def sub(mo):
         m.setdefault(mo.group(0), "drtf_i#%d" % len(m))
         return m[mo.group(0)]
-    return re.sub(r"drtf_i\d+(_\d+)?", sub, t)
+    return index_var_pattern().sub(sub, t)
 
 
 def perms_for(n, tier):
